@@ -163,3 +163,64 @@ func BenchmarkMutexScenario(b *testing.B) {
 	b.ReportMetric(float64(steps)/float64(b.N), "steps/run")
 	b.ReportMetric(float64(dumps)/float64(b.N), "dumps/run")
 }
+
+// A library that starts a goroutine of its own without telling anybody (no
+// "spawn" site): a queue drained by a lazily started worker that exits when
+// idle (the shape of benign change C13-e1). The scheduler has to notice the
+// unannounced goroutine before its next decision, or the number of
+// candidates depends on how fast the worker reaches its first yield.
+func lazyWorkerScenario(seed uint64) Outcome {
+	s := New(choice.NewRandom(seed))
+	var mu sync.Mutex
+	var pending []chan struct{}
+	running := false
+	var drain func()
+	drain = func() {
+		for {
+			Yield("drain:lock", 0)
+			mu.Lock()
+			if len(pending) == 0 {
+				running = false
+				mu.Unlock()
+				return
+			}
+			j := pending[0]
+			pending = pending[1:]
+			mu.Unlock()
+			Yield("drain:job", 0)
+			close(j)
+		}
+	}
+	for c := 0; c < 3; c++ {
+		s.Go(fmt.Sprintf("client%d", c), func() {
+			for k := 0; k < 3; k++ {
+				done := make(chan struct{})
+				Yield("submit:lock", int64(k))
+				mu.Lock()
+				pending = append(pending, done)
+				if !running {
+					running = true
+					go drain()
+				}
+				mu.Unlock()
+				Yield("submit:wait", int64(k))
+				<-done
+			}
+		})
+	}
+	return s.Run()
+}
+
+func TestUnannouncedGoroutineDeterministic(t *testing.T) {
+	for seed := uint64(1); seed <= 40; seed++ {
+		o1 := lazyWorkerScenario(seed)
+		if o1.Trouble != "" || o1.Deadlock || o1.NoProgress {
+			t.Fatalf("seed %d: %+v", seed, o1)
+		}
+		for rep := 0; rep < 4; rep++ {
+			if o2 := lazyWorkerScenario(seed); o1.Signature() != o2.Signature() {
+				t.Fatalf("seed %d: same seed, different schedule", seed)
+			}
+		}
+	}
+}
